@@ -27,7 +27,7 @@ impl C10 {
             terms.push(list(s.clone()));
             if !s.is_empty() { terms.push(mk_list(s.clone(), Some(var("$Tail")))); terms.push(cplx("f", vec![list(s.clone()), var("$V")])); }
         }
-        C10 { terms, n_rules: if tier == Tier::Quick { 6_000 } else { 150_000 }, n_progs: if tier == Tier::Quick { 1_500 } else { 30_000 }, seed }
+        C10 { terms, n_rules: if tier == Tier::Quick { 40_000 } else { 500_000 }, n_progs: if tier == Tier::Quick { 8_000 } else { 100_000 }, seed }
     }
 }
 
